@@ -23,24 +23,39 @@ calls recv / recv_stderr with generated sizes. After every step a sentinel round
 complete. Oracle at every step: sum(WINDOW_ADJUST sent by the tested side) <= bytes returned to the
 application so far. Client role also: the CHANNEL_OPEN advertises exactly the clamped request
 (window into [32768, 2^32-1], packet into [4096, 2^32-1]).
+
+Engine E4 (vlib.sched + vlib.chanbench: the real Channel on a fake transport, every lock operation, the
+transport's send point and optionally every source line of the send / receive paths of channel.py is
+a switch point; the interleaving is a generated preemption list, fully deterministic):
+Family "e4snd": 2-3 application tasks (send / send_stderr / sendall / sendall_stderr, small sizes so that
+the window matters) || one transport task delivering WINDOW_ADJUSTs through the real handler. Same history
+invariant, evaluated on the scheduler's totally ordered event log (adjust noted before it is delivered).
+Family "e4rcv": transport task feeding DATA / EXTENDED_DATA(1) within the advertised window || 1-2 application
+tasks calling recv / recv_stderr. At the moment every WINDOW_ADJUST reaches the transport's send point:
+sum(adjusts incl. this one) <= bytes fed - bytes still in the two pipes (= what applications took out).
 """
 import socket
 import threading
 
 from hypothesis import strategies as st
 
+from vlib import chanbench as CB
 from vlib import peers
 from vlib import refssh as R
+from vlib import sched as S
 
 PROPERTY = "C19"
 LEVEL = "exploration"
 RULE = (
-    "E3 puppet. snd: role x (window, max_packet) from {0,1,4095,4096,4097,32768,2^20,2^32-1}^2 x 1-4 sender threads (send/send_stderr/"
+    "E3 puppet + E4 scheduler. snd: role x (window, max_packet) from {0,1,4095,4096,4097,32768,2^20,2^32-1}^2 x 1-4 sender threads (send/send_stderr/"
     "sendall/sendall_stderr, 0..200 KiB, blocking/timeout/non-blocking) x WINDOW_ADJUST plan (0,1,small,medium,2^32-1; at quiescence or "
     "racing); rcv: role x requested/advertised window and packet sizes across the clamp boundaries x generated interleaving of puppet "
     "data/extended data (within the advertised window) and application recv/recv_stderr sizes; non-trivial = snd: offered bytes > "
     "initial window (a sender had to wait for an adjust) or >= 2 sender threads; rcv: at least one WINDOW_ADJUST was observed; "
-    "distinct by the whole case"
+    "distinct by the whole case. E4 (real Channel on a fake transport under the deterministic scheduler, lock- and line-level switch points, "
+    "generated preemption lists): e4snd = window {0,1,100,4095,4096,4097,32768} x max packet x 2-3 sender tasks (sizes 0..9000) || "
+    "transport task delivering 0-4 adjusts; e4rcv = window {32768,32769,40000} x transport task feeding <= 8 messages within the window || 1-2 "
+    "reader tasks; non-trivial as above"
 )
 
 TO = 20.0
@@ -358,18 +373,169 @@ rcv_case = st.one_of(
 )
 
 
+
+# ----------------------------------------------------------------------------- E4 families
+
+E4_TRACED = {"send", "send_stderr", "sendall", "sendall_stderr", "_send", "_wait_for_send_window", "_window_adjust", "recv", "recv_stderr", "_check_add_window", "_feed", "_feed_extended"}
+
+
+def _bench(case, **chan_kw):
+    import paramiko.channel as PC
+
+    tf = {PC.__file__: E4_TRACED} if case.get("trace") else None
+    sch = S.Scheduler(S.strategy_from_case(case["sched"]), trace_files=tf, max_steps=60000)
+    ft = CB.FakeTransport(sch)
+    chan = CB.make_channel(sch, ft, chanid=1, remote_chanid=7, **chan_kw)
+    return sch, ft, chan
+
+
+def run_e4snd(ctx, case):
+    W, P = case["window"], case["maxpkt"]
+    sch, ft, chan = _bench(case, out_window=W, out_max_packet=P)
+    offered = sum(op[1] for ops in case["apps"] for op in ops)
+    data = bytes(range(256)) * 40
+
+    def app(ops):
+        def body():
+            for kind, size, mode in ops:
+                chan.settimeout({"block": None, "timeout": 0.5, "nonblock": 0.0}[mode])
+                try:
+                    getattr(chan, kind)(data[:size])
+                except socket.timeout:
+                    pass
+
+        return body
+
+    def transport():
+        for n in list(case["adjusts"]) + [offered + 1]:
+            sch.note(("adjust", n))
+            ft.deliver(CB.MSG_CHANNEL_WINDOW_ADJUST, 1, n)
+
+    for i, ops in enumerate(case["apps"]):
+        sch.spawn("app%d" % i, app([tuple(o) for o in ops]))
+    sch.spawn("transport", transport)
+    with S.patch_time(sch, *CB.chan_time_modules()):
+        res = sch.run()
+    classes = ["e4snd", "e4snd:apps=%d" % len(case["apps"]), "e4snd:outcome=" + str(res.outcome)]
+    if res.switched_in(lambda t: t[0] == "line"):
+        classes.append("e4snd:preempted-at-channel.py-line")
+    for name, info in res.tasks.items():
+        if info.exc is not None:
+            raise peers.core.HarnessError("C19 e4snd: task %s raised %s" % (name, info.tb))
+    cum, allowed = 0, W
+    waited = False
+    bad = None
+    for ev in res.log:
+        if ev[0] == "adjust":
+            allowed += ev[1]
+        elif ev[0] == "wire" and ev[1]["type"] in ("DATA", "EXTENDED_DATA"):
+            n = len(ev[1]["data"])
+            cum += n
+            if cum > W:
+                waited = True
+            if bad is None and P >= MIN_P and n > P:
+                bad = ("max-packet-respected", "e4:%s" % ev[1]["type"].lower(), "data string of %d bytes by %s, peer max packet %d" % (n, ev[1]["task"], P))
+            if bad is None and cum > allowed:
+                bad = ("window-respected", "e4:apps=%d" % len(case["apps"]), "%d data bytes on the wire, window granted so far %d (initial %d); last message %d bytes by %s" % (cum, allowed, W, n, ev[1]["task"]))
+    ctx.case(case, waited or len(case["apps"]) >= 2, classes + (["e4snd:used-adjusted-window"] if waited else []))
+    if bad:
+        ctx.violation(bad[0], bad[1], case, bad[2])
+
+
+def run_e4rcv(ctx, case):
+    W = case["window"]
+    sch, ft, chan = _bench(case, in_window=W, in_max_packet=32768)
+    st_ = {"fed": 0, "granted": 0, "bad": None, "adjusts": 0}
+    orig = ft._send_user_message
+
+    def send_user_message(m):
+        raw = m.asbytes()
+        if raw[0] == CB.MSG_CHANNEL_WINDOW_ADJUST and st_["bad"] is None:
+            n = int.from_bytes(raw[5:9], "big")
+            st_["granted"] += n
+            st_["adjusts"] += 1
+            taken = st_["fed"] - len(chan.in_buffer._buffer) - len(chan.in_stderr_buffer._buffer)
+            if st_["granted"] > taken:
+                st_["bad"] = "WINDOW_ADJUST(%d) by %s brings the granted total to %d; applications have taken %d bytes out of the pipes (fed %d)" % (n, sch.current_name(), st_["granted"], taken, st_["fed"])
+        orig(m)
+
+    ft._send_user_message = send_user_message
+    data = bytes(range(256)) * 160
+
+    def transport():
+        sent = 0
+        for kind, n in case["feeds"]:
+            n = min(n, W + st_["granted"] - sent, len(data))
+            if n <= 0:
+                continue
+            st_["fed"] += n  # before the bytes are in the pipe: the oracle may only over-estimate "taken"
+            sent += n
+            if kind == "data":
+                ft.deliver(CB.MSG_CHANNEL_DATA, 1, data[:n])
+            else:
+                ft.deliver(CB.MSG_CHANNEL_EXTENDED_DATA, 1, 1, data[:n])
+
+    def app(ops):
+        def body():
+            for kind, n in ops:
+                try:
+                    getattr(chan, kind)(n)
+                except socket.timeout:
+                    pass
+
+        return body
+
+    chan.settimeout(0.5)
+    sch.spawn("transport", transport)
+    for i, ops in enumerate(case["apps"]):
+        sch.spawn("app%d" % i, app([tuple(o) for o in ops]))
+    with S.patch_time(sch, *CB.chan_time_modules()):
+        res = sch.run()
+    for name, info in res.tasks.items():
+        if info.exc is not None:
+            raise peers.core.HarnessError("C19 e4rcv: task %s raised %s" % (name, info.tb))
+    classes = ["e4rcv", "e4rcv:apps=%d" % len(case["apps"]), "e4rcv:outcome=" + str(res.outcome)] + (["e4rcv:adjust-observed"] if st_["adjusts"] else [])
+    ctx.case(case, st_["adjusts"] >= 1, classes)
+    if st_["bad"]:
+        ctx.violation("grant-at-most-consumed", "e4:apps=%d" % len(case["apps"]), case, st_["bad"])
+
+
+e4_send_op = st.tuples(st.sampled_from(["send", "send_stderr", "sendall", "sendall_stderr"]), st.one_of(st.sampled_from([0, 1, 50, 100, 4032, 4033, 5000]), st.integers(0, 9000)), st.sampled_from(["block", "block", "timeout", "nonblock"]))
+e4snd_case = st.fixed_dictionaries(
+    {
+        "fam": st.just("e4snd"),
+        "window": st.sampled_from([0, 1, 100, 4095, 4096, 4097, 32768]),
+        "maxpkt": st.sampled_from([0, 1, 4095, 4096, 4097, 32768, 0xFFFFFFFF]),
+        "apps": st.lists(st.lists(e4_send_op, min_size=1, max_size=3), min_size=2, max_size=3),
+        "adjusts": st.lists(st.one_of(st.sampled_from([0, 1, 63, 64, 65, 100, 4096]), st.integers(0, 6000)), max_size=4),
+        "sched": S.schedule_strategy(max_pre=4, max_gap=50, max_forced=12),
+        "trace": st.sampled_from([True, True, False]),
+    }
+)
+e4rcv_case = st.fixed_dictionaries(
+    {
+        "fam": st.just("e4rcv"),
+        "window": st.sampled_from([32768, 32769, 40000]),
+        "feeds": st.lists(st.tuples(st.sampled_from(["data", "data", "ext"]), st.one_of(st.sampled_from([1, 3276, 3277, 4096, 32768]), st.integers(1, 40000))), min_size=1, max_size=8),
+        "apps": st.lists(st.lists(st.tuples(st.sampled_from(["recv", "recv", "recv_stderr"]), st.sampled_from([1, 100, 3276, 3277, 5000, 40000])), min_size=1, max_size=6), min_size=1, max_size=2),
+        "sched": S.schedule_strategy(max_pre=4, max_gap=50, max_forced=12),
+        "trace": st.sampled_from([True, True, False]),
+    }
+)
+
+
 def body(ctx, case):
-    if case["fam"] == "snd":
-        run_snd(ctx, case)
-    else:
-        run_rcv(ctx, case)
+    {"snd": run_snd, "rcv": run_rcv, "e4snd": run_e4snd, "e4rcv": run_e4rcv}[case["fam"]](ctx, case)
 
 
 def run(ctx):
     ctx.set_budget(75, 800)
     ctx.assume("window/packet sizes are uint32 on the wire; transport-wide defaults are taken from the documented range (>= 32768 / >= 4096) because the server side advertises them unclamped")
-    ctx.explore(snd_case, lambda c: body(ctx, c), ctx.scale(220, 2200), shrink=False)
-    ctx.explore(rcv_case, lambda c: body(ctx, c), ctx.scale(200, 1800), shrink=False, seed_offset=1)
+    ctx.explore(snd_case, lambda c: body(ctx, c), ctx.scale(120, 700), shrink=False)
+    ctx.explore(rcv_case, lambda c: body(ctx, c), ctx.scale(100, 550), shrink=False, seed_offset=1)
+    # E4: deterministic, so failing cases are shrunk
+    ctx.explore(e4snd_case, lambda c: body(ctx, c), ctx.scale(800, 6000), seed_offset=2)
+    ctx.explore(e4rcv_case, lambda c: body(ctx, c), ctx.scale(400, 3000), seed_offset=3)
 
 
 def replay(ctx, case):
